@@ -61,7 +61,9 @@ func c10Code(src string) *gojq.Code {
 var c10Ops = map[string]string{
 	"+": "$a + $b", "-": "$a - $b", "*": "$a * $b", "/": "$a / $b", "%": "$a % $b",
 	"neg": "-$a", "abs": "$a | abs", "length": "$a | length",
-	"cmp":     "[$a == $b, $a != $b, $a < $b, $a <= $b, $a > $b, $a >= $b]",
+	"cmp": "[$a == $b, $a != $b, $a < $b, $a <= $b, $a > $b, $a >= $b]",
+	// equality of integers as the other builtins see it
+	"eqs":     "[($a | contains($b)), ($a | inside($b)), ([$a] | contains([$b])), ({k: $a} | contains({k: $b})), ([$a] | index($b) == 0), ([$a, $b] | unique | length == 1), ([$a] | inside([$b])), ([$a, $b] | group_by(.) | length == 1), ([$a] - [$b] == []), ($a | IN($b, null)), ([$b] | bsearch($a) >= 0), ([$a, $b] | (min == max))]",
 	"neg-lit": "$a | -(.)", "sub0": "0 - $a", "toarr": "[$a, $b] | (.[0] + .[1])",
 }
 
@@ -120,6 +122,9 @@ var kC10Arith = run.NewKind("c10.arith", func(c *run.Ctx, t c10Arith) *run.Fail 
 	case "cmp":
 		k := a.Cmp(b)
 		want = fmt.Sprintf("[%v,%v,%v,%v,%v,%v]", k == 0, k != 0, k < 0, k <= 0, k > 0, k >= 0)
+	case "eqs":
+		e := a.Cmp(b) == 0
+		want = "[" + strings.TrimSuffix(strings.Repeat(fmt.Sprint(e)+",", 12), ",") + "]"
 	}
 	big31 := a.CmpAbs(two31) >= 0 || b.CmpAbs(two31) >= 0 || res.CmpAbs(two31) >= 0
 	if big31 {
@@ -567,7 +572,7 @@ func init() {
 			r := c.Rand("c10")
 			B := c10Boundary(r, c.N(150, 300))
 			c.Gauge("boundary_set_size", int64(len(B)))
-			binops := []string{"+", "-", "*", "/", "%", "cmp"}
+			binops := []string{"+", "-", "*", "/", "%", "cmp", "eqs"}
 			if c.Quick() {
 				// sampled pairs
 				n := 150000
